@@ -62,6 +62,11 @@ func (a AnonymousFlattenMangler) unmangleStruct(sf reflect.StructField, fvs []Fi
 	allNil := true
 	for i := 0; i < sf.Type.NumField(); i++ {
 		oft := sf.Type.Field(i)
+		if fvsIdx >= len(fvs) {
+			// every hoisted field has been put back; what remains was
+			// never hoisted (e.g. a trailing unexported field)
+			break
+		}
 		if oft.Name == fvs[fvsIdx].Field.Name {
 			out.Field(i).Set(fvs[fvsIdx].Value)
 			switch fvs[fvsIdx].Value.Kind() {
